@@ -6,7 +6,7 @@ from models import poly, selfcheck
 PROPERTY_ID = "C05"
 RULE = ("programs new(key); input(chunk)*; raw_result|result: keys = r in {0,1,2,unclamped all-ones,max clamped,2 patterns} x s in {0,all-ones,pattern}; "
         "messages = every length 0..=80 (thorough 0..=160) x content patterns, RFC 8439 A.3 wrap-around inputs, crafted r=1 three-block messages whose accumulator lands on "
-        "p-2..p+4; chunkings = one call, every 2-split (every cut point), every 3-split for lengths <= 50 (thorough), every sequence of <= 3 chunks over "
+        "p-2..p+4; accumulator steering with r in {1,2,4,5}: blocks assembled from 26-bit limb fields at their carry boundaries (every combination), alone, after 1-3 zero blocks (the sum passing 2^130) and with short tails; saturated keys (all-ones, max clamped r) x every sequence of <= 3 blocks with limb fields in {0,max}, and runs of up to 4096 saturated blocks; chunkings = one call, every 2-split (every cut point), every 3-split for lengths <= 50 (thorough), every sequence of <= 3 chunks over "
         "{0,1,15,16,17,33}; oracle = big-integer definition of RFC 8439 2.5; non-trivial = non-empty message; distinct = program text")
 ASSUMPTIONS = ["the 6-line big-integer Poly1305 of RFC 8439 2.5.1 (validated on 2.5.2 and A.3 #5-#11)", "message content from the pattern alphabet plus crafted wrap-around blocks"]
 
@@ -15,6 +15,12 @@ P130 = (1 << 130) - 5
 
 def builds_needed(tier):
     return ["rel"]
+
+
+# Own corpus re-run on other builds of the crate (mc/core.py: extra builds). Every observation is compared with the same model.
+def extra_builds(tier):
+    return [("relchk", None), ("avx2", None)]
+
 
 
 def bounds(tier):
@@ -59,13 +65,81 @@ def crafted():
     return out
 
 
+NLIMB = 8
+
+
 def shards(tier):
     ks = keys(tier)
     sh = [("shard_key", i) for i in range(len(ks))]
     sh.append(("shard_crafted", None))
+    sh += [("shard_limbs", i) for i in range(NLIMB)]
     if tier == "thorough":
         sh += [("shard_three", i) for i in (1, 4, 14)]
     return sh
+
+
+def limb_blocks(tier):
+    """16-byte block values assembled from 26-bit limb fields (the implementation's radix), each field from a boundary set: the
+    values that sit next to a carry out of a limb, in every combination"""
+    m26 = (1 << 26) - 1
+    f0 = (0, 1, 5, m26 - 5, m26 - 4, m26 - 1, m26)
+    f = (0, 1, m26 - 1, m26)
+    f4 = (0, 1, (1 << 24) - 2, (1 << 24) - 1)
+    if tier == "thorough":
+        f0 = (0, 1, 4, 5, 1 << 25, m26 - 6, m26 - 5, m26 - 4, m26 - 1, m26)
+        f = (0, 1, 1 << 25, m26 - 2, m26 - 1, m26)
+    out = []
+    for a in f0:
+        for b in f:
+            for c in f:
+                for d in f:
+                    for e in f4:
+                        out.append((a | (b << 26) | (c << 52) | (d << 78) | (e << 104)).to_bytes(16, "little"))
+    return out
+
+
+def limb_cases(tier):
+    """accumulator steering: with r = 1 the accumulator is the plain sum of the marked blocks, so the limb-field block set is
+    placed (a) as the only block, (b) after one and two zero blocks, (c) after three zero blocks, where the sum passes 2^130 and
+    the implementation folds the overflow back as +5 into limb 0 (the only way limb 1 can be left above 26 bits), each with and
+    without a short tail block; r = 2, 4, 5 shift and scale the same fields across the limb borders"""
+    z = bytes(16)
+    keys = [(1).to_bytes(16, "little") + bytes(16), (1).to_bytes(16, "little") + b"\xff" * 16, (2).to_bytes(16, "little") + pat(7, 0, 16),
+            (4).to_bytes(16, "little") + bytes(16), (5).to_bytes(16, "little") + b"\xff" * 16]
+    if tier == "thorough":
+        keys += [(3).to_bytes(16, "little") + bytes(16), (0x0ffffffc0ffffffc0ffffffc0fffffff).to_bytes(16, "little") + bytes(16)]
+    out = []
+    for key in keys:
+        for m in limb_blocks(tier):
+            for pre in (0, 1, 2, 3):
+                for tail in (b"", b"\x00", b"\xff" * 15):
+                    out.append((key, z * pre + m + tail))
+    return out
+
+
+def saturated_cases(tier):
+    """largest magnitudes: r with every limb at its clamped maximum (and the unclamped all-ones key), message blocks assembled from
+    limb fields in {0, max} - every sequence of up to three such blocks (32 + 32^2 + 32^3 messages), so that the unreduced products
+    and the carries between limbs are driven to their extremes for several blocks in a row"""
+    m26 = (1 << 26) - 1
+    blocks = []
+    for bits in range(32):
+        v = 0
+        for i in range(5):
+            if bits >> i & 1:
+                v |= (m26 if i < 4 else (1 << 24) - 1) << (26 * i)
+        blocks.append(v.to_bytes(16, "little"))
+    keys = [b"\xff" * 32, (0x0ffffffc0ffffffc0ffffffc0fffffff).to_bytes(16, "little") + bytes(16)]
+    out = []
+    for key in keys:
+        for a in blocks:
+            out.append((key, a))
+            for b in blocks:
+                out.append((key, a + b))
+                if tier == "thorough" or key is keys[0]:
+                    for c in blocks:
+                        out.append((key, a + b + c))
+    return out
 
 
 def _nt(ops, meta):
@@ -116,11 +190,29 @@ def shard_crafted(_, tier):
             for cut in range(0, len(msg) + 1):
                 cases.append((prog(H(key), [H(msg[:cut]), H(msg[cut:])], "mresult s0"), ["-", "-", "-", tag], None))
     # long messages
+    # long runs of saturated blocks under saturated keys (lazily carried limbs grow block after block), and long patterned messages
+    for key in (b"\xff" * 32, (0x0ffffffc0ffffffc0ffffffc0fffffff).to_bytes(16, "little") + b"\xff" * 16):
+        for k, n in ((1, 8640), (1, 16384), (1, 65536), (5, 65536), (1, 16 * 539 + 7)):
+            tag = obs_of(poly.poly1305(key, pat(k, 0, n)))
+            cases.append((prog(H(key), [P(k, 0, n)], "mraw s0"), ["-", "-", tag], None))
     for n in (255, 256, 257, 1024, 4095, 4096):
         for key in (pat(5, 0, 32), b"\xff" * 32):
             tag = obs_of(poly.poly1305(key, pat(7, 0, n)))
             cases.append((prog(H(key), [P(7, 0, n)], "mraw s0"), ["-", "-", tag], None))
             cases.append((prog(H(key), [P(7, 0, 100), P(7, 100, n - 100)], "mraw s0"), ["-", "-", "-", tag], None))
+    ck.run(cases, nontrivial=_nt)
+    ck.stats.states = len(cases)
+    return ck.stats
+
+
+def shard_limbs(i, tier):
+    ck = core.Checker(PROPERTY_ID)
+    cases = []
+    for j, (key, msg) in enumerate(limb_cases(tier) + saturated_cases(tier)):
+        if j % NLIMB != i:
+            continue
+        tag = obs_of(poly.poly1305(key, msg))
+        cases.append((prog(H(key), [H(msg)], "mraw s0"), ["-", "-", tag], None))
     ck.run(cases, nontrivial=_nt)
     ck.stats.states = len(cases)
     return ck.stats
